@@ -73,14 +73,17 @@ func (o *Observer) PeerName(p erpc.Peer) string {
 	return "?"
 }
 
-// SessKey returns the stable key of a session: its remote address.
-func SessKey(s interface{ RemoteAddr() net.Addr }) string {
-	defer func() { recover() }()
-	a := s.RemoteAddr()
-	if a == nil {
-		return "<nil>"
-	}
-	return a.String()
+// SessKey returns the stable key of a session end: "local<remote" addresses (unique per connection end).
+func SessKey(s interface {
+	RemoteAddr() net.Addr
+	LocalAddr() net.Addr
+}) (k string) {
+	defer func() {
+		if recover() != nil {
+			k = "<nil>"
+		}
+	}()
+	return s.LocalAddr().String() + "<" + s.RemoteAddr().String()
 }
 
 // RecordHandler logs a handler entry.
